@@ -327,7 +327,7 @@ def impl_dict(case):
             if type(r) is not cls: viol = '%s returned a %s, not a %s' % (op, type(r).__name__, cls.__name__)
             elif r is d: viol = '%s returned the operand itself' % op
             elif [k for k, _ in got] != [k for k, _ in want]: viol = '%s: keys %r, expected %r' % (op, [k for k, _ in got], [k for k, _ in want])
-            elif not all(a[1] is b[1] for a, b in zip(got, want)): viol = '%s: values are not the original objects: %r vs %r' % (op, [v[0] for _, v in got], [v[0] for _, v in want])
+            elif not all(a[1] is b[1] for a, b in zip(got, want)): viol = '%s: values are not the original objects: %r vs %r' % (op, [obs_value(k, v) for k, v in got], [obs_value(k, v) for k, v in want])
             elif op == 'sub' and form in ('list', 'str') and list(r.keys()) != list(d.keys() - spelled()): viol = '(d - k).keys() != d.keys() - k'
             elif op == 'and' and form in ('list', 'str') and list(r.keys()) != list(d.keys() & spelled()): viol = '(d & k).keys() != d.keys() & k'
         elif kind == 'vals':
